@@ -53,6 +53,8 @@ pub struct Profile {
     /// chance that a call which needs no funds (PayFunding, Liquidate, WithdrawMargin) on a native-collateral deployment
     /// carries collateral coins anyway: they may only end up with the engine
     pub stray_funds_pct: u64,
+    /// histories that start with a close whose whole-close price lands exactly on the band edge
+    pub exact_edge_pct: u64,
 }
 
 impl Default for Profile {
@@ -81,6 +83,7 @@ impl Default for Profile {
             bad_registry_pct: 25,
             long_pct: 2,
             stray_funds_pct: 0,
+            exact_edge_pct: 2,
         }
     }
 }
@@ -1253,6 +1256,54 @@ impl Gen {
         self.close(h, r, t, v, limit);
     }
 
+    /// A close whose whole-close price lands EXACTLY on the edge of the band, with no rounding anywhere: on a market
+    /// nobody else trades on, a long of a quarter of the quote reserve moves the price by x1.5625 (a short of a fifth by
+    /// x0.64); in the next block the limit is set to 36 % (56.25 %), so that closing the whole position brings the price
+    /// back exactly onto the lower (upper) limit. Reserves that are whole multiples of 20 units make every quotient exact.
+    /// One time in three the limit is one raw unit tighter or looser (whole close just outside / just inside).
+    pub fn macro_exact_edge_close(&mut self, h: &mut History, r: &mut Report) {
+        let d = h.w.d;
+        let cands: Vec<usize> = (0..h.w.vamms.len()).filter(|i| { let v = &h.last.vamms[*i]; v.tps == 0 && v.open && v.registered }).collect();
+        if cands.is_empty() || h.last.eng.paused {
+            return;
+        }
+        let v = *self.rng.pick(&cands);
+        let t = self.pick_trader();
+        if h.last.pos(v, t).is_some() {
+            return;
+        }
+        let long = self.rng.chance(1, 2);
+        let owner = h.last.eng.owner.clone();
+        if h.last.eng.partial == 0 || h.last.eng.partial >= d {
+            let p = *self.rng.pick(&[d / 4, d / 2, d / 10]);
+            if !self.eng_cfg(h, r, &owner, None, None, Some(p), None).out.ok {
+                return;
+            }
+        }
+        if h.last.vamms[v].fluct != 0 && !self.vamm_cfg(h, r, v, |c| c.fluct = Some(0)).out.ok {
+            return;
+        }
+        let q = h.last.vamms[v].q;
+        let n = if long { q / 4 } else { q / 5 };
+        let init = h.last.eng.initial.max(1);
+        let kmax = (d / init).clamp(1, 10);
+        let k = (1..=kmax).rev().find(|k| n % k == 0).unwrap_or(1);
+        if !self.open(h, r, t, v, long, n / k, k * d, 0).out.ok {
+            return;
+        }
+        self.advance(h, r, 1, 6);
+        let mut l = if long { d / 100 * 36 } else { d / 10_000 * 5625 };
+        match self.rng.below(6) {
+            0 => l += 1,
+            1 => l -= 1,
+            _ => {}
+        }
+        if !self.vamm_cfg(h, r, v, |c| c.fluct = Some(l)).out.ok {
+            return;
+        }
+        self.close(h, r, t, v, 0);
+    }
+
     pub fn macro_same_block(&mut self, h: &mut History, r: &mut Report) {
         // a few operations by several traders without advancing the block, then a liquidation attempt, then more
         let v = self.pick_vamm(h);
@@ -1528,6 +1579,9 @@ impl Gen {
     /// one W-ENG history
     pub fn run_history(&mut self, h: &mut History, r: &mut Report) {
         let n = if self.rng.chance(self.prof.long_pct, 100) { self.rng.range(400, 1500) } else { self.rng.range(self.prof.steps.0, self.prof.steps.1) };
+        if self.rng.chance(self.prof.exact_edge_pct, 100) {
+            self.macro_exact_edge_close(h, r);
+        }
         // seed a few positions so that early steps are not vacuous
         for _ in 0..3 {
             self.rand_open(h, r);
